@@ -159,4 +159,12 @@ Section Examples.
     /\ enum_output e (PStr [68]) = COk (PStr [68])
     /\ enum_output e (PInt 2%Z) = CErr.
   Proof. vm_compute. repeat split. Qed.
+  (* a tuple and a list with equal items are different values: (1, 1) != [1, 1] *)
+  Example C16_ex_enum_tuple :
+    enum_output [([85], PTuple [PInt 1%Z; PInt 1%Z])] (PList [PInt 1%Z; PInt 1%Z]) = CErr
+    /\ (let e := [([84], PTuple [PInt 1%Z; PInt 2%Z]); ([76], PList [PInt 1%Z; PInt 2%Z])] in
+        enum_output e (PList [PInt 1%Z; PInt 2%Z]) = COk (PStr [76])
+        /\ enum_output e (PTuple [PFloat (FFin false 1 0%Z); PInt 2%Z]) = COk (PStr [84]))
+    /\ hashable (PTuple [PList []]) = false.
+  Proof. vm_compute. repeat split. Qed.
 End Examples.
